@@ -1,0 +1,52 @@
+//go:build verif && (verif_all || verif_c16)
+// +build verif
+// +build verif_all verif_c16
+
+package gocql
+
+// Verification hooks (build tag `verif`) for the session's ring bookkeeping (ring.go):
+// an exported handle on the unexported `ring` with its operations and a snapshot of its three
+// indexes. Add-only.
+
+import "net"
+
+// VerifRing wraps a ring.
+type VerifRing struct{ r *ring }
+
+func NewVerifRing() *VerifRing { return &VerifRing{r: &ring{}} }
+
+// VerifRingHost builds a HostInfo with the given host id, node-to-node address (broadcast_address
+// when fromLocal, else peer; nil = none) and connectAddress field (nil = unset).
+func VerifRingHost(hostID string, nodeAddr net.IP, fromLocal bool, connectAddr net.IP) *HostInfo {
+	h := &HostInfo{hostId: hostID, connectAddress: connectAddr, port: 9042, dataCenter: "dc1", rack: "r1", tokens: []string{"0"}}
+	if fromLocal {
+		h.broadcastAddress = nodeAddr
+	} else {
+		h.peer = nodeAddr
+	}
+	return h
+}
+
+func (v *VerifRing) AddOrUpdate(h *HostInfo) *HostInfo              { return v.r.addOrUpdate(h) }
+func (v *VerifRing) AddHostIfMissing(h *HostInfo) (*HostInfo, bool) { return v.r.addHostIfMissing(h) }
+func (v *VerifRing) RemoveHost(hostID string) bool                  { return v.r.removeHost(hostID) }
+func (v *VerifRing) GetHost(hostID string) *HostInfo                { return v.r.getHost(hostID) }
+func (v *VerifRing) GetHostByIP(ip string) (*HostInfo, bool)        { return v.r.getHostByIP(ip) }
+func (v *VerifRing) AllHosts() []*HostInfo                          { return v.r.allHosts() }
+func (v *VerifRing) CurrentHosts() map[string]*HostInfo             { return v.r.currentHosts() }
+
+// Snapshot copies the three indexes.
+func (v *VerifRing) Snapshot() (byID map[string]*HostInfo, byIP map[string]string, list []*HostInfo) {
+	v.r.mu.RLock()
+	defer v.r.mu.RUnlock()
+	byID = make(map[string]*HostInfo, len(v.r.hosts))
+	for k, h := range v.r.hosts {
+		byID[k] = h
+	}
+	byIP = make(map[string]string, len(v.r.hostIPToUUID))
+	for k, id := range v.r.hostIPToUUID {
+		byIP[k] = id
+	}
+	list = append(list, v.r.hostList...)
+	return
+}
